@@ -7,7 +7,7 @@ from lib import esc_list
 THEOREMS = ['C10.C10_merge_preserves_meaning', 'C10.C10_merge_values_union', 'C10.C10_absorb_shrinks', 'C10.C10_case_drop',
             'C10.C10_empty_access_narrowed', 'C10.C10_mount_options_fused', 'C10.C10_exec_modes_fused',
             'C10.C10_signal_not_idempotent', 'C10.C10_den_preserved_partial', 'C10.C10_dup_only_identical_partial',
-            'C10.C10_merge_contract', 'C10.C10_dup_contract']
+            'C10.C10_merge_contract', 'C10.C10_dup_contract', 'C10.C10_idempotent_partial', 'C10.C10_merged_keys_distinct']
 # kind -> indices of the list fields that Merge unites
 MERGED = {'mqueue': [0], 'io_uring': [0], 'ptrace': [0], 'unix': [0], 'dbus': [0], 'file': [2], 'signal': [0, 1], 'variable': [1]}
 MOUNTS = ('mount', 'umount', 'remount')
